@@ -154,3 +154,11 @@ P("C07", "srcfacts+mirfacts+rules",
   "is preceded by discover_nested_dependencies; harvesting uses only the depth-aware splitter; the serde filter is derive ∋ (Serialize ∨ "
   "Deserialize) by path and is consulted when indexing and extracting; the renderer receives the used set; Result keeps only T.",
   "scanner-on-text ≡ scanner-on-TypeStructure for exotic spellings is not decided", a=True, b=True)
+
+P("C09", "srcfacts+mirfacts+rules",
+  "static analysis: hole order of the Zod types template and provenance of each section (TPATH/FLOW), loop-source provenance of the schema emission (FLOW over MIR), post-order and order-freedom of the DFS (ORDER/UNORD), divert-branch enumeration around add_dependencies (CTRL)",
+  "Decides the structural chain the property rests on: definitions section before parameter schemas before aliases, each fed from its own "
+  "emitter; struct schemas are appended in exactly the order topological_sort_types returned; that order is a post-order DFS visited in sorted "
+  "(hash-order-free) order; every resolved type records its dependency edges, harvested from all its fields, with no diverting branch.  "
+  "The equivalence of the text-based edge harvester with the structure-based schema references is not decided.",
+  "the statement is conditional on an acyclic type graph", a=True, b=True)
